@@ -43,16 +43,18 @@ func (s *ReplicationStreamObserver) ReportStreamValue(idx int32, value int32) {
 		return
 	}
 	s.streamGrowLock.Lock()
+	// Released on every exit path, including a panic captured by the stream handler.
+	defer s.streamGrowLock.Unlock()
 	// We want to grow the minimum number of times, so
-	if idx >= int32(len(s.streamActive)) {
+	if int(idx) >= len(s.streamActive) {
 		// Each index will be uniformly random in the range [0, maxStreams). Growing by a percentage of index helps
-		// minimize the amount of reallocation required. Starting with increasing to 125% of idx to keep memory waste low
-		newSize := min(int((idx+1)*9), math.MaxInt32) / 8
+		// minimize the amount of reallocation required. Starting with increasing to 125% of idx to keep memory waste low.
+		// Computed in int (int32 arithmetic overflows for large idx) and never smaller than idx+1.
+		newSize := max(min((int(idx)+1)*9, math.MaxInt32)/8, int(idx)+1)
 		// grow and maximize
 		s.streamActive = slices.Grow(s.streamActive, newSize)[:newSize]
 	}
 	s.streamActive[idx].Add(value)
-	s.streamGrowLock.Unlock()
 }
 func (s *ReplicationStreamObserver) PrintActiveStreams() string {
 	sb := strings.Builder{}
